@@ -89,10 +89,14 @@ func FindFunc(name string, pkgs ...*Package) (fi *FuncInfo) {
 			pkg = pkgs[0]
 		}
 	}
+	// The table is changed by defun, export, use-package and others in
+	// any routine, they all hold the package mutex while they do.
+	pkg.mu.Lock()
 	if fi = pkg.funcs[vname]; fi == nil {
 		vname = strings.ToLower(vname)
 		fi = pkg.funcs[vname]
 	}
+	pkg.mu.Unlock()
 	if fi != nil {
 		// A function the package imported is found in that package just
 		// like an imported variable is, exported by its home package or not.
@@ -351,7 +355,10 @@ func CompileList(list List) (f Object) {
 		switch ta := list[0].(type) {
 		case Symbol:
 			name := strings.ToLower(string(ta))
-			fi := CurrentPackage.funcs[name]
+			pkg := CurrentPackage
+			pkg.mu.Lock()
+			fi := pkg.funcs[name]
+			pkg.mu.Unlock()
 			if fi == nil && strings.Contains(name, ":") {
 				// A name with a package prefix is looked up in that package
 				// as it is when the call is not inside a compiled body.
@@ -368,7 +375,6 @@ func CompileList(list List) (f Object) {
 					},
 					Forms: List{Undefined(name)},
 				}
-				CurrentPackage.lambdas[name] = &lc
 				fc := func(args List) Object {
 					return &Dynamic{
 						Function: Function{
@@ -378,8 +384,19 @@ func CompileList(list List) (f Object) {
 						},
 					}
 				}
-				CurrentPackage.funcs[name] = &FuncInfo{Name: name, Create: fc, Pkg: CurrentPackage, Export: true}
-				f = fc(list[1:])
+				// The stand-in is registered unless the function was
+				// defined by another routine since the lookup above.
+				pkg.mu.Lock()
+				if fi = pkg.funcs[name]; fi == nil {
+					pkg.lambdas[name] = &lc
+					pkg.funcs[name] = &FuncInfo{Name: name, Create: fc, Pkg: pkg, Export: true}
+				}
+				pkg.mu.Unlock()
+				if fi != nil {
+					f = fi.Create(list[1:])
+				} else {
+					f = fc(list[1:])
+				}
 			}
 			if funk, ok := f.(Funky); ok {
 				funk.CompileArgs()
